@@ -127,11 +127,24 @@ def r1b(ctx):
 def r2(ctx):
     ix = ctx.ix
     f = ctx.fn(MOLECULE, 'Molecule.get_CIGAR')
-    loops = [l for l in walk_no_nested(f) if isinstance(l, ast.For) and 'get_aligned_blocks' in src(l.iter)]
-    if len(loops) != 1 or not (isinstance(loops[0].target, ast.Tuple) and len(loops[0].target.elts) == 2):
+    # the loop over the aligned blocks: directly over get_aligned_blocks(), or over a local holding them (`blocks = list(...)`), with or
+    # without an enumerate index
+    block_lists = {s_.targets[0].id for s_ in walk_no_nested(f) if isinstance(s_, ast.Assign) and len(s_.targets) == 1 and isinstance(s_.targets[0], ast.Name)
+                   and 'get_aligned_blocks' in src(s_.value)}
+    loops = [l for l in walk_no_nested(f) if isinstance(l, ast.For) and ('get_aligned_blocks' in src(l.iter) or (names_in(l.iter) & block_lists))]
+    idxv = None
+    blist = None
+    if len(loops) == 1:
+        tg = loops[0].target
+        if isinstance(loops[0].iter, ast.Call) and dotted(loops[0].iter.func) == 'enumerate' and isinstance(tg, ast.Tuple) and len(tg.elts) == 2 and isinstance(tg.elts[0], ast.Name) \
+                and isinstance(tg.elts[1], ast.Tuple):
+            idxv = tg.elts[0].id
+            blist = src(loops[0].iter.args[0]) if loops[0].iter.args else None
+            tg = tg.elts[1]
+    if len(loops) != 1 or not (isinstance(tg, ast.Tuple) and len(tg.elts) == 2 and all(isinstance(e, ast.Name) for e in tg.elts)):
         raise AnalysisError('get_CIGAR: loop over get_aligned_blocks() not found')
     l = loops[0]
-    st, en = [e.id for e in l.target.elts]
+    st, en = [e.id for e in tg.elts]
     apps = {}
     for c in walk_no_nested(l):
         if isinstance(c, ast.Call) and isinstance(c.func, ast.Attribute) and c.func.attr == 'append' and c.args and isinstance(c.args[0], ast.Tuple) \
@@ -140,7 +153,9 @@ def r2(ctx):
     prev = [s for s in l.body if isinstance(s, ast.Assign) and isinstance(s.targets[0], ast.Name) and src(s.value) == en]
     pv = prev[0].targets[0].id if prev else None
     okm = 'M' in apps and linform(apps['M']) == Lin({en: 1, st: -1}, 1)
-    okn = 'N' in apps and pv is not None and linform(apps['N']) == Lin({st: 1, pv: -1}, -1)
+    prev_syms = ([pv] if pv is not None else []) + ([f'{blist}[{idxv} - 1][1]'] if idxv and blist else [])
+    okn = 'N' in apps and any(linform(apps['N']) == Lin({st: 1, p_: -1}, -1) for p_ in prev_syms)
+    pv = pv if pv is not None else (prev_syms[0] if prev_syms else None)
     ctx.emit('C15-R2', okm, MOLECULE, l, f'get_CIGAR: M length `{src(apps.get("M")) if "M" in apps else None}` ' + ('== end - start + 1' if okm else '!= end - start + 1 (blocks are inclusive)'), key='cigar:M-length')
     ctx.emit('C15-R2', okn, MOLECULE, l, f'get_CIGAR: N length `{src(apps.get("N")) if "N" in apps else None}` with {pv} = previous block end ' + ('== start - prev_end - 1' if okn else 'is not the gap between inclusive blocks'), key='cigar:N-length')
     # the N is only emitted between blocks and the M for every block
@@ -231,9 +246,20 @@ def r2(ctx):
 def r3(ctx):
     f = ctx.fn(SEQUTILS, 'phredscores_to_base_call')
     # the ranked list: the local assigned from Counter(...).most_common()
-    ranked = [s_ for s_ in walk_no_nested(f) if isinstance(s_, ast.Assign) and len(s_.targets) == 1 and isinstance(s_.targets[0], ast.Name) and src(s_.value).endswith('.most_common()')]
+    def is_ranking(v):
+        # Counter(..).most_common()  or  sorted(<mapping>.items(), key=<second element>, reverse=True): (base, probability) pairs, best first
+        if src(v).endswith('.most_common()'):
+            return True
+        if isinstance(v, ast.Call) and dotted(v.func) == 'sorted' and v.args and src(v.args[0]).endswith('.items()'):
+            kw = {k.arg: k.value for k in v.keywords}
+            rev = isinstance(kw.get('reverse'), ast.Constant) and kw['reverse'].value is True
+            key = kw.get('key')
+            by_value = isinstance(key, ast.Lambda) and len(key.args.args) == 1 and src(key.body) == f'{key.args.args[0].arg}[1]' or (key is not None and src(key) in ('operator.itemgetter(1)', 'itemgetter(1)'))
+            return rev and bool(by_value)
+        return False
+    ranked = [s_ for s_ in walk_no_nested(f) if isinstance(s_, ast.Assign) and len(s_.targets) == 1 and isinstance(s_.targets[0], ast.Name) and is_ranking(s_.value)]
     if len(ranked) != 1:
-        ctx.emit('C15-R3', False, SEQUTILS, f, 'phredscores_to_base_call: the candidates are not ranked with most_common()', key='tie-returns-N')
+        ctx.emit('C15-R3', False, SEQUTILS, f, 'phredscores_to_base_call: how the candidates are ranked was not recognised (most_common() / sorted by probability, descending)', key='tie-returns-N', undecided=True)
         return
     var = ranked[0].targets[0].id
 
@@ -376,7 +402,7 @@ def r4(ctx):
             why = 'MD reference is one contiguous fetch although the CIGAR can contain N operations (reference and query misaligned after the first gap)' if emits_N else 'contiguous fetch, no N possible'
         else:
             # must be assembled in a loop over the CIGAR operations, fetching only for M
-            refnames = names_in(refarg)
+            refnames = roots(refarg)
             blt = None
             for l in [x for x in walk_no_nested(gd) if isinstance(x, ast.For)]:
                 for c in walk_no_nested(l):
